@@ -21,7 +21,7 @@ def one(d):
     demo = re.search(r"demo clean: exit (\d+); demo with change: exit (\d+)", out)
     res = {c: (int(mm.group(1)) if (mm := re.search(rf"^{c}: exit (\d+)", out, re.M)) else None) for c in checks}
     return os.path.basename(d), {"demo_clean": int(demo.group(1)) if demo else None, "demo_changed": int(demo.group(2)) if demo else None, "checks": res,
-                                 "caught": any(v == 1 for v in res.values()), "patch_failed": "PATCH FAILED" in out}
+                                 "caught": any(v == 1 for v in res.values()), "patch_failed": "PATCH FAILED" in out, "recorded_status": m.get("status", "caught")}
 
 
 seeds = sorted(glob.glob("/verif/seeded/S*"))
@@ -32,6 +32,7 @@ with cf.ThreadPoolExecutor(jobs) as ex:
         print(name, res, flush=True)
 json.dump({"_run": {"VERIF_SEED": os.environ.get("VERIF_SEED", "0"), "tier": os.environ.get("SEEDEVAL_TIER", "quick"), "repo_head": subprocess.run(["git", "-C", "/repo", "log", "--format=%h", "-1"], capture_output=True, text=True).stdout.strip()}, **results},
           open("/verif/seeded/RESULTS.json", "w"), indent=1, sort_keys=True)
-missed = [n for n, r in results.items() if not r["caught"]]
-print(f"{len(results) - len(missed)} / {len(results)} caught; missed: {missed}")
+open_ = [n for n, r in results.items() if not r["caught"] and r["recorded_status"] == "not-caught-yet"]  # stored as not caught yet: listed, not a regression
+missed = [n for n, r in results.items() if not r["caught"] and n not in open_]
+print(f"{len(results) - len(missed) - len(open_)} / {len(results)} caught; recorded as not caught yet: {open_}; missed: {missed}")
 sys.exit(1 if missed else 0)
